@@ -99,7 +99,9 @@ impl View {
             }
             match &rec.ev {
                 Ev::UdpRecv { sock, src, dgram, data, truncated_to } => {
-                    let class = r::classify_request(&data[..*truncated_to], srv);
+                    // judged on the datagram as it arrived, not on what fitted the receiver's buffer
+                    let _ = truncated_to;
+                    let class = r::classify_request(data, srv);
                     recvs.push(RecvRec { seq: rec.seq, t: rec.t, task, proc, sock: *sock, src: *src, dgram: *dgram, data: data.clone(), class, answers: vec![] });
                     pending.entry(task).or_default().push(recvs.len() - 1);
                     // a receive ends the task's current batch
